@@ -101,6 +101,17 @@ func (sc *specCtx) trT(x *core.Sexp) (string, types.Type) {
 		return sc.trT(body)
 	}
 	switch h {
+	case "global":
+		// (global NAME): the value of a package-level variable in the current state
+		if len(args) == 1 && args[0].IsAtom() {
+			if gv, ok := g.P.SSA.Members[args[0].Atom].(*ssa.Global); ok {
+				t := sc.fr.val(gv)
+				r := g.load(sc.st, g.locOfPointer(t))
+				return r.S, r.T
+			}
+		}
+		sc.fail("global: unknown package variable %s", args[0])
+		return "0", nil
 	case "fnid":
 		if len(args) == 1 && args[0].IsAtom() {
 			if fn := g.P.Lookup(args[0].Atom); fn != nil {
